@@ -76,6 +76,7 @@ type Pair = (PublicKey, Vec<u8>);
 enum Call {
     Verify(Vec<Pair>, Signature),
     Update(Pair),
+    UpdateWrong(Pair, Pair),
     Evict(Vec<Pair>),
     Len,
 }
@@ -181,6 +182,10 @@ fn sym_call(tok: &str) -> Call {
             Call::Verify(sym_pairs(v[0]), sym_sig(v[1]))
         }
         "U" => Call::Update(sym_pair(rest)),
+        "B" => {
+            let v: Vec<&str> = rest.split('/').collect();
+            Call::UpdateWrong(sym_pair(v[0]), sym_pair(v[1]))
+        }
         "E" => Call::Evict(sym_pairs(rest)),
         _ => Call::Len,
     }
@@ -198,6 +203,7 @@ fn run_calls(cache: &BlsCache, calls: &[Call]) -> Vec<Out> {
                 let a = aug(p);
                 cache.update(&a, hash_to_g2(&a).pair(&p.0));
             }
+            Call::UpdateWrong(p, q) => cache.update(&aug(p), hash_to_g2(&aug(q)).pair(&q.0)),
             Call::Evict(pairs) => cache.evict(pairs.iter().map(|(pk, m)| (pk, m.as_slice()))),
             Call::Len => outs.push(Out::Len(cache.len())),
         }
@@ -650,6 +656,27 @@ fn run(name: &str, args: &[String]) -> Option<String> {
             Some("OK".into())
         }
         "bls.o_laws" => Some(o_laws(args)),
+        // bls.lawsym SK SK' PATH HIDDEN : the three law bits on the real library (see BlsRun.v h_lawsym)
+        "bls.lawsym" => {
+            let (Some(a), Some(b)) = (sk_from_hex(&args[0]), sk_from_hex(&args[1])) else { return Some("BADSK".into()) };
+            let path: Vec<u32> = split_list(&args[2]).into_iter().map(|x| dec(x) as u32).collect();
+            let hidden = b32(&args[3]);
+            let bit = |x: bool| if x { "1" } else { "0" };
+            let d = if path.is_empty() {
+                "P".to_string()
+            } else {
+                let mut s = a.clone();
+                let mut p = a.public_key();
+                for i in &path {
+                    s = s.derive_unhardened(*i);
+                    p = p.derive_unhardened(*i);
+                }
+                bit(s.public_key() == p).to_string()
+            };
+            let add = bit((&a + &b).public_key() == &a.public_key() + &b.public_key());
+            let syn = bit(a.derive_synthetic_hidden(&hidden).public_key() == a.public_key().derive_synthetic_hidden(&hidden));
+            Some(format!("{} {} {}", d, add, syn))
+        }
         _ => None,
     }
 }
